@@ -796,8 +796,8 @@ def defs():
       'min_version': (RNG, r'pub\s+fn\s+min_version\s*\(&self\)\s*->\s*Option<Version>\s*\{', {'self': 'range', 'set': 'boundset'}, False,
           'Definition min_version_src (self_ : range) : option version :=\n  %s.\n',
           'Theorem min_version_src_ok : forall r, min_version_src r = r_min_version r.\n'
-          'Proof. intro r. unfold min_version_src, r_min_version. f_equal. apply flat_map_ext. intro bs. unfold bs_min, min_candidates, push0, bump_patch, v3, v4. f_equal.\n'
-          '  destruct (bs_lower bs) as [[v|v|]|p]; try reflexivity. destruct (is_pre v); reflexivity. Qed.\n'),
+          'Proof. intro r. unfold min_version_src, r_min_version. first [reflexivity | f_equal; apply flat_map_ext; intro bs; unfold bs_min, min_candidates, push0, bump_patch, v3, v4; f_equal;\n'
+          '  destruct (bs_lower bs) as [[v|v|]|p]; try reflexivity; destruct (is_pre v); reflexivity]. Qed.\n'),
       'max_satisfying': (RNG, r"pub\s+fn\s+max_satisfying<'v>\s*\(&self,\s*versions:\s*&'v\s*\[Version\]\)\s*->\s*Option<&'v\s+Version>\s*\{", {'self': 'range', 'versions': 'versions'}, False,
           'Definition max_satisfying_src (self_ : range) (versions : list version) : option version :=\n  %s.\n',
           'Theorem max_satisfying_src_ok : forall r l, max_satisfying_src r l = r_max_satisfying r l.\nProof. reflexivity. Qed.\n'),
